@@ -1373,6 +1373,15 @@ def authLock (st : State) (inp : List String) (obs : List String) : State × Lis
     match c.toNat?, obs.head?.map toks with
     | some c, some ("ok" :: _) => if isWrong st c then (note { st with expectDisc := c :: st.expectDisc } "auth.mismatching_hash_delivered", []) else (note st "auth.matching_hash_delivered", [])
     | _, _ => (st, [])
+  | ["junk", c, "1", hex] =>
+    -- injected bytes that decode to a protocol hash other than the real one are a mismatch too
+    if obs.head?.map (fun o => (toks o).head?) ≠ some (some "ok") then (st, []) else
+    match c.toNat?, parseHex hex with
+    | some c, some bs =>
+      (match Recv.receive .hash true bs with
+       | .ok (.event _ _) => if some bs = st.legitHash then (st, []) else ({ st with expectDisc := c :: st.expectDisc }, [])
+       | _ => (st, []))
+    | _, _ => (st, [])
   | ["disconnect", c] => ({ st with expectDisc := st.expectDisc.filter (some · ≠ c.toNat?) }, [])
   | ["stop"] => ({ st with expectDisc := [] }, [])
   | "sframe" :: _ =>
@@ -1450,6 +1459,20 @@ def mtrOracle (st : State) (inp : List String) (obs : List String) : State × Li
 
 /-! ### C09: nothing of an earlier session is acted upon — a client acknowledges only mutate
 messages it received in the current session -/
+
+/-- Nothing is handed to the transport for an entity that is no connected client (C05: "to
+nobody else"; C13: "nothing is put on the network when there is no connection"; C07 for the
+replication channels). -/
+def strayOracle (st : State) (inp : List String) (obs : List String) : List Verdict :=
+  if inp.head? ≠ some "sframe" then [] else
+  obs.flatMap fun o =>
+    let ts := toks o
+    if ts.head? = some "sent" && kv ts "c" = some "?" then
+      let ch := (kvNat ts "ch").getD 0
+      let what := s!"a message on server channel {ch} ({(kv ts "hex").getD ""}) was handed to the transport for an entity that is not a connected client"
+      if ch < 2 then [Verdict.oracle "C07" what, Verdict.oracle "C01" what]
+      else [Verdict.oracle "C05" what, Verdict.oracle "C13" what] ++ (if st.junkCase then [Verdict.oracle "C06" what] else [])
+    else []
 
 def sessionOracle (st : State) (inp : List String) (obs : List String) : State × List Verdict :=
   let ok : Bool := match obs.head? with
@@ -1777,6 +1800,7 @@ def handle (st : State) (inp : List String) (obs : List String) : State × List 
   let (st, v8) := authLock st inp obs
   let (st, v9) := mtrOracle st inp obs
   let (st, v10) := sessionOracle st inp obs
+  let v10 := v10 ++ strayOracle st inp obs
   let (st, v2) := handleOracles st inp obs
   -- C06: after injected bytes the server must keep serving the other clients correctly
   let v7 := if !st.junkCase then [] else (v2 ++ v1 ++ v3 ++ v4).filterMap fun v => match v with
